@@ -50,6 +50,7 @@ ASSUMPTIONS = [
     "a raw_connection() user does not change isolation_level / autocommit behind the pool's back",
     "with pool_reset_on_return=None the model expects carry-over (the property's exception clause); isolation level is still expected to be reset there only if a reset listener is installed",
     "PostgreSQL / MySQL: call-log level only (recording DBAPI; committed state derived by C23's _TxSim); dialect.default_isolation_level is preset by the harness because the recording engine skips initialize()",
+    "known finding excluded by construction and pinned: with an AUTOCOMMIT engine default, a per-connection isolation level is not restored on return (only the autocommit knob is)",
     "reference model in checks/c24.py is trusted",
 ]
 
@@ -80,7 +81,7 @@ class _Live:
         if cfg["default_iso"]:
             kw["isolation_level"] = cfg["default_iso"]
         if cfg["mode"] == "legacy":
-            kw["connect_args"] = {"autocommit": -1 if False else __import__("sqlite3").LEGACY_TRANSACTION_CONTROL, "timeout": 0.2}
+            kw["connect_args"] = {"autocommit": __import__("sqlite3").LEGACY_TRANSACTION_CONTROL, "timeout": 0.2}
         self.eng = sautil.file_engine(ctx, **kw)
         with self.eng.begin() as c:
             c.exec_driver_sql("create table t (x integer)")
@@ -243,8 +244,6 @@ class _Rec:
         for k, v in got.items():
             if v is None:
                 continue  # never touched on this connection -> still the server / engine default
-            if k == "level" and self.flavour == "mysql" and self.cfg["default_iso"] == "AUTOCOMMIT":
-                continue
             if k == "autocommit" and not v and not exp[k]:
                 continue
             if v != exp[k]:
@@ -280,6 +279,9 @@ class _Run:
         self.cls = set()
         self.left_dirty = set()  # keys whose previous checkout ended dirty (open txn / changed isolation)
         self.nontrivial = False
+        self.pinned = bool(case.get("pinned"))
+        self.excluded = []
+        self.last_iso = {}
         if self.reset == "custom":
             event.listen(b.eng, "reset", self._custom_reset)
 
@@ -324,6 +326,9 @@ class _Run:
         if not self.dirty_iso.get(key):
             got = b.iso_state(raw)
             ok = b.iso_matches(got) if hasattr(b, "iso_matches") else got == b.iso_default()
+            if not ok and self.cfg["default_iso"] == "AUTOCOMMIT" and self.last_iso.get(key) not in (None, "AUTOCOMMIT"):
+                raise Violation("C24/isolation-not-reset/autocommit-default-keeps-previous-level", f"{t}: engine default is AUTOCOMMIT, the previous user of this DBAPI connection "
+                                f"selected {self.last_iso[key]}; on return only the autocommit knob was restored: {got} != {b.iso_default()}", observed=got, expected=b.iso_default())
             if not ok:
                 raise Violation(f"C24/{b.name}/isolation-not-reset", f"{t}: isolation state {got} != engine default {b.iso_default()} (reset_on_return={self.reset})",
                                 observed=got, expected=b.iso_default())
@@ -340,6 +345,11 @@ class _Run:
         iso = co.get("iso")
         if kind == "raw" or (iso == "AUTOCOMMIT" and not self.b.legacy and self.b.name == "live"):
             iso = None
+        if iso not in (None, "AUTOCOMMIT") and self.cfg["default_iso"] == "AUTOCOMMIT" and not self.pinned:
+            # known finding: resetting to an AUTOCOMMIT engine default only flips the autocommit knob; the isolation
+            # level chosen by this user stays on the DBAPI connection
+            self.excluded.append("per-connection isolation level under an AUTOCOMMIT engine default (known finding: level not restored on return)")
+            iso = None
         if kind == "conn":
             conn = eng.connect()
             raw = conn.connection.dbapi_connection
@@ -355,9 +365,10 @@ class _Run:
         self.left_dirty.discard(key)
         autocommit = False
         iso_changed = False
+        if iso == "AUTOCOMMIT" and open_txn:
+            iso = None  # inherited open DBAPI transaction (reset None) + driver autocommit: nothing is promised, keep the model simple
+        self.last_iso[key] = iso
         if iso is not None:
-            if open_txn and kind == "conn":
-                pass  # DBAPI-level leftovers do not stop execution_options (Connection has no transaction object yet)
             conn = conn.execution_options(isolation_level=iso)
             iso_changed = True
             autocommit = iso == "AUTOCOMMIT"
@@ -366,8 +377,13 @@ class _Run:
             autocommit = True
         dml_in_txn = open_txn
         sps = 0
+        conn_txn = False  # the Connection object holds a Transaction (autobegin / begin); its commit()/rollback() are no-ops otherwise
         for a in co["acts"]:
+            if kind == "conn" and a in ("w", "sel", "begin") or (a == "sp" and kind == "conn" and not autocommit and (dml_in_txn or not self.b.legacy)):
+                conn_txn = True
             if a == "w":
+                if autocommit and self.b.name != "live":
+                    continue  # the recording DBAPI has no driver-level autocommit to observe
                 self.tok += 1
                 stmt = f"insert into t values ({self.tok})"
                 if kind == "conn":
@@ -376,11 +392,8 @@ class _Run:
                     cur = raw.cursor()
                     cur.execute(stmt)
                     cur.close()
-                if autocommit and kind == "conn" or (autocommit and self.b.name == "live"):
+                if autocommit:
                     self.committed.add(self.tok)
-                elif autocommit and kind == "raw" and self.b.name != "live":
-                    pend.add(self.tok)  # the recording DBAPI has no real autocommit: call-log view only
-                    dml_in_txn = True
                 else:
                     pend.add(self.tok)
                     dml_in_txn = True
@@ -408,6 +421,9 @@ class _Run:
             elif a in ("commit", "rollback"):
                 if kind == "conn":
                     getattr(conn, a)()
+                    if not conn_txn:
+                        continue  # documented: "If no transaction was started, the method has no effect"
+                    conn_txn = False
                 else:
                     getattr(raw, a)()
                 if a == "commit":
@@ -450,8 +466,7 @@ class _Run:
             if end in ("close", "exc"):
                 fairy.close()
             elif end == "gc":
-                fairy = None
-                gc.collect()
+                fairy = None  # no reference cycle: the fairy dies (and is finalized) by refcount
             elif end == "invalidate":
                 fairy.invalidate()
                 gone = True
@@ -467,9 +482,6 @@ class _Run:
             # Connection.close(): "any transactional state ... unconditionally released via rollback()", but only if the
             # Connection had begun a transaction object; DBAPI-level leftovers inherited under reset None that the
             # Connection never touched go through the pool reset
-            if kind == "conn" and (dml_in_txn or not pend):
-                if self.b.name != "live" or True:
-                    pass
             if kind == "conn" and self._conn_had_txn(co, autocommit):
                 pend = set()
                 dml_in_txn = False
@@ -537,8 +549,9 @@ def _check(case, ctx, make_backend):
                 if run.nontrivial:
                     classes.add("NONTRIVIAL")
                 ctx.note(case, run.nontrivial, classes=sorted(classes))
+                for r in run.excluded:
+                    ctx.exclude(r)
     finally:
-        gc.collect()
         b.close()
 
 
